@@ -74,7 +74,8 @@ def run_driver(lines, timeout=900):
 MAX_TIMEOUTS_PER_SHARD = 3
 
 
-class CaseTimeout(Exception):
+class CaseTimeout(BaseException):
+    """not an Exception: the generic handlers of harness code (and of the code under test) must not swallow a deadline"""
     pass
 
 
@@ -130,7 +131,7 @@ def _shard_worker(args):
             r = call_with_timeout(fn, payload, per_case_timeout)
         except RecursionError:
             r = 'crash RecursionError'
-        if r == 'timeout' or (isinstance(r, str) and r.startswith('crash CaseTimeout')):
+        if r == 'timeout' or 'CaseTimeout' in repr(r)[:300]:
             ntimeouts += 1
         res.append((line, payload, m, r))
     return res
@@ -179,7 +180,7 @@ def _pmap_worker(args):
             r = call_with_timeout(fn, p, per_case_timeout)
         except RecursionError:
             r = 'crash RecursionError'
-        if r == 'timeout':
+        if r == 'timeout' or 'CaseTimeout' in repr(r)[:300]:
             ntimeouts += 1
         out.append(r)
     return out
